@@ -19,6 +19,9 @@ Model (boring on purpose, written from RFC 4787 vocabulary, independent of the l
 * a packet addressed to any other RFC 1918 address goes nowhere (no such host on the LAN / unroutable outside);
 * hairpinning is NOT modelled: a packet an internal node addresses to its own box's public IP is dropped
   (reason ``hairpin``), as on the many consumer devices without NAT loopback;
+* ``remap(name)``: the mapping of an internal endpoint times out (mapping, reverse entry and sessions are forgotten,
+  packets to the old public port find ``no-mapping``) and its next outbound packet allocates a *different* public port
+  (also in ``keep`` mode: the preferred port is still blocked); a public node is re-bound to the next port instead;
 * ``expire_sessions(keep)`` forgets every outbound session except those towards ``keep`` (idle sessions time out,
   the mapping itself stays because the kept session refreshes it).
 
@@ -59,11 +62,12 @@ class NatBox:
     reverse: dict = field(default_factory=dict)    # public port -> LAN (ip, port)
     sessions: dict = field(default_factory=dict)   # LAN (ip, port) -> set of (ip, port) sent to
     next_port: int = 30001
+    displaced: set = field(default_factory=set)    # internal endpoints whose preferred public port is blocked
 
     def map_out(self, lan: tuple, dst: tuple) -> tuple:
         port = self.mapping.get(lan)
         if port is None:
-            if self.ports == "keep":
+            if self.ports == "keep" and lan not in self.displaced:
                 port = lan[1]
             else:
                 port = self.next_port
@@ -73,6 +77,17 @@ class NatBox:
             self.reverse[port] = lan
         self.sessions.setdefault(lan, set()).add(tuple(dst))
         return (self.public_ip, port)
+
+    def expire_mapping(self, lan: tuple) -> int | None:
+        """The mapping of this internal endpoint timed out; the next outbound packet gets another public port."""
+        port = self.mapping.pop(lan, None)
+        if port is not None:
+            del self.reverse[port]
+            if self.ports == "keep":
+                self.next_port = max(self.next_port, port + 1)
+        self.sessions.pop(lan, None)
+        self.displaced.add(lan)
+        return port
 
     def admit(self, src: tuple, port: int) -> tuple[tuple | None, str]:
         """(internal endpoint or None, reason) for a packet from src addressed to public_ip:port."""
@@ -134,6 +149,23 @@ class NatWorld(simnet.World):
             return tuple(node.address)
         port = box.mapping.get(tuple(node.address))
         return None if port is None else (box.public_ip, port)
+
+    def remap(self, name: str) -> tuple:
+        """NAT mapping renewal on another public port / re-bind of a public node.  Returns (old, new or None)."""
+        node = self.nodes[name]
+        box = self.box_of[name]
+        old = self.public_address_of(name)
+        if box is not None:
+            box.expire_mapping(tuple(node.address))
+            return old, None                      # the new mapping appears with the next outbound packet
+        new = UDPv4Address(node.address[0], node.address[1] + 1)
+        del self.public[tuple(node.address)]
+        self.endpoints.pop(tuple(node.address), None)
+        node.address = new
+        node.endpoint.address = new
+        self.public[tuple(new)] = node
+        self.endpoints[tuple(new)] = node.endpoint
+        return old, tuple(new)
 
     def expire_sessions(self, keep: tuple) -> None:
         keep = tuple(keep)
